@@ -212,6 +212,61 @@ func rulesC13(c *Ctx) {
 			n, _ := fieldLoadName(call.Call.Value)
 			return n != "" && n == unlockField
 		}
+		// a once-guard: `if !atomic.CompareAndSwapT(&locker.flag, 0, 1) { return err }` - the failing edge is
+		// taken only by a Commit that follows one which passed the guard (and released the lock)
+		cfacts := factsFor(commit)
+		onceCAS := func(v ssa.Value) bool {
+			call, ok := v.(*ssa.Call)
+			if !ok {
+				return false
+			}
+			cal := call.Call.StaticCallee()
+			if cal == nil || cal.Pkg == nil || cal.Pkg.Pkg.Path() != "sync/atomic" || !strings.HasPrefix(cal.Name(), "CompareAndSwap") || len(call.Call.Args) != 3 {
+				return false
+			}
+			fa, ok := call.Call.Args[0].(*ssa.FieldAddr)
+			if !ok || fa.X != ssa.Value(commit.Params[0]) {
+				return false
+			}
+			if o, ok := constInt(call.Call.Args[1]); !ok || o != 0 {
+				return false
+			}
+			if nw, ok := constInt(call.Call.Args[2]); !ok || nw == 0 {
+				return false
+			}
+			// the flag is written nowhere else
+			fld := fieldName(fa)
+			sole := true
+			for _, g := range pkgFns {
+				eachInstr(g, func(_ *ssa.BasicBlock, _ int, in ssa.Instruction) {
+					if in == ssa.Instruction(call) {
+						return
+					}
+					for _, op := range in.Operands(nil) {
+						if op == nil || *op == nil {
+							continue
+						}
+						if fa2, ok := (*op).(*ssa.FieldAddr); ok && fieldName(fa2) == fld && fa2 != fa {
+							// any other use of the flag's address but an atomic load
+							if c2, isC := in.(*ssa.Call); isC && c2.Call.StaticCallee() != nil && c2.Call.StaticCallee().Pkg != nil &&
+								c2.Call.StaticCallee().Pkg.Pkg.Path() == "sync/atomic" && strings.HasPrefix(c2.Call.StaticCallee().Name(), "Load") {
+								continue
+							}
+							sole = false
+						}
+					}
+				})
+			}
+			return sole
+		}
+		feasible := func(_ int, pred, succ *ssa.BasicBlock) bool {
+			for k := range factsOnEdge(cfacts, pred, succ) {
+				if !k.pol && onceCAS(k.v) {
+					return false
+				}
+			}
+			return true
+		}
 		exits := RunPaths(commit, nil, 0, func(st int, in ssa.Instruction, deferred bool) int {
 			hit := isUnlockCall(in)
 			if d, ok := in.(*ssa.Defer); ok && deferred {
@@ -223,7 +278,7 @@ func rulesC13(c *Ctx) {
 				return st + 1
 			}
 			return st
-		}, false, nil)
+		}, false, feasible)
 		ok := len(exits) > 0
 		for _, e := range exits {
 			if e.State != 1 {
@@ -372,9 +427,40 @@ func ruleGetOrCreate(c *Ctx, fns []*ssa.Function) {
 				c.Bad("R5", con, guard.Pos(), "the emptiness test that decides the creation reads the scope outside the locked section (Value is not called on the locker) — two callers both see 'missing' and each create an instance")
 			default:
 				lv := lock.Value()
-				bad := MustPass(f, lock.Instr, func(in ssa.Instruction) bool {
+				isCommit := func(in ssa.Instruction) bool {
 					ci := callInfo(in, nil, 0)
-					return ci != nil && isDataMethod(ci, "Commit") && resolve(ci.Recv()) == lv
+					if ci == nil || !isDataMethod(ci, "Commit") {
+						return false
+					}
+					rv := resolve(ci.Recv())
+					if rv == lv {
+						return true
+					}
+					// inside a function literal: the captured variable that holds the locker
+					if u, isU := rv.(*ssa.UnOp); isU && u.Op == token.MUL {
+						if fv, isFV := u.X.(*ssa.FreeVar); isFV {
+							if a, isA := bindingOf(fv).(*ssa.Alloc); isA {
+								if st := uniqueStore(a); st != nil && resolve(st.Val) == lv {
+									return true
+								}
+							}
+						}
+					}
+					return false
+				}
+				bad := MustPass(f, lock.Instr, func(in ssa.Instruction) bool {
+					if isCommit(in) {
+						return true
+					}
+					// defer func() { ... locker.Commit() ... }(): the literal commits on every path
+					if d, isD := in.(*ssa.Defer); isD {
+						if mc, isMC := d.Call.Value.(*ssa.MakeClosure); isMC {
+							if fn, isFn := mc.Fn.(*ssa.Function); isFn && fn.Blocks != nil {
+								return len(MustPass(fn, nil, isCommit)) == 0
+							}
+						}
+					}
+					return false
 				})
 				c.Check(len(bad) == 0, "R5", con, s.Pos(), "test and store on the locker from LockData(); Commit() on every path",
 					"a return is reachable without Commit(): the scope's data stays locked")
